@@ -24,7 +24,7 @@ theorem opRegister_type {c : Ctx} {e : Engine} {ot : Nat} {t : Option Template} 
     ∃ o, eff = .insert [o] ∧ o.otype ∈ storedTypes := by
   unfold opRegister at h
   inv h
-  obtain ⟨hreg, dd, _, o, ho, rfl, _⟩ := h
+  obtain ⟨hreg, dd, _, _, _, o, ho, rfl, _⟩ := h
   refine ⟨_, rfl, ?_⟩
   show o.otype ∈ storedTypes
   rw [(setAttrs_core ho).otype]
